@@ -347,6 +347,9 @@ class BuiltinMixin:
         if name in ("py_strip", "py_lower", "py_upper"):
             from . import strings
             return strings.str_method(self, args[0], name[3:], [], {}, fr)
+        if name == "np_cast":
+            # the elementwise cast function of the numpy astype model (same uninterpreted symbol)
+            return z3.Function("np_astype", z3.IntSort(), z3.IntSort())(zint(args[0]))
         if name == "in_re":
             # in_re(s, "<python regex>") : full-match membership in the translated pattern (ASCII)
             from . import strings
